@@ -8,7 +8,8 @@ The oracle never asks odc-geo for a footprint: every tile is a pixel rectangle d
 construction parameters (shape, tile sizes), mapped to the world by the harness' own 6-coefficient
 affine arithmetic into a shapely polygon; across CRSs the rectangle's edges are densified (32 points
 per side) and projected with ``pyproj.Transformer`` objects built inside the harness from EPSG codes
-(never taken from odc-geo's caches).
+(never taken from odc-geo's caches).  The tile-aspect slice (strip-shaped tiles as long as the raster) cuts the
+edges into pieces of at most 1/4 destination pixel instead and measures what that leaves undecided.
 
 What is demanded (and nothing more):
 * geometry query  -> exactly the tiles whose footprint is not disjoint from the query; a contact that
@@ -2229,6 +2230,162 @@ def run_odd(case):
 
 
 # =================================================================================================
+# different CRS, tile ASPECT RATIO: thin strips (1, 2, 4 rows or columns), mixtures, squares
+# =================================================================================================
+# Rasters of 1000-4500 km in lon/lat against an azimuthal (LAEA Europe), a conic (Albers Australia) and a
+# transverse cylindrical (UTM 55S, +-5 degrees about the central meridian) CRS, both directions.  A tile that is
+# one to four pixels wide and as long as the raster has a long side that is visibly curved in the other CRS (the
+# bulge between the end points of a side is tens of pixels) while its short side is not; whatever is done "per
+# tile" (points per side, bounding boxes, buffers) scales with the wrong side for such tiles.
+# Oracle: brute force over ALL (destination tile, source tile) pairs.  Destination tiles are exact rectangles in
+# their own CRS; each source tile's outline is projected by the harness with pieces no longer than 1/4 (1/8, ..)
+# destination pixel; the residual curvature of a piece is MEASURED (image of the piece's midpoint against the
+# midpoint of its chord) and added to the half-pixel threshold, so nothing is demanded that the approximation
+# cannot decide.
+XASP = {
+    # id -> (lon/lat raster: epsg, affine, shape; projected raster: epsg, affine, shape)
+    "laea-europe": (4326, (0.5, 0.0, -12.0, 0.0, -0.5, 70.0), (64, 96),
+                    3035, (40e3, 0.0, 1.8e6, 0.0, -40e3, 5.3e6), (95, 110)),
+    "albers-australia": (4326, (0.5, 0.0, 112.0, 0.0, -0.5, -10.0), (68, 84),
+                         3577, (40e3, 0.0, -2.1e6, 0.0, -40e3, -1.0e6), (100, 108)),
+    "utm55s": (4326, (0.2, 0.0, 142.0, 0.0, -0.2, -30.0), (60, 50),
+               32755, (20e3, 0.0, 0.0, 0.0, -20e3, 6.75e6), (75, 50)),
+}
+ASP_DIRECTIONS = ("lonlat<-projected", "projected<-lonlat")
+ASP_DST_TILES = ("rows1", "rows2", "rows4", "cols1", "cols2", "cols4", "square", "mixed-rows", "mixed-cols",
+                 "rows2-quarter", "cols2-quarter")
+ASP_SRC_TILES = ("square", "rows4", "cols4")
+ASP_SRC_TILES_THOROUGH = ("rows1", "rows2", "cols1", "cols2", "mixed-rows")
+# where the source raster lies: covering the destination / moved by half its size (+ a quarter pixel), so that
+# its own (curved) outline cuts across the destination strips
+ASP_PLACE = {"cover": (0.0, 0.0), "NE": (0.5, -0.5), "SW": (-0.5, 0.5)}
+ASP_H = (0.25, 0.125, 0.0625, 0.03125)  # longest piece of a projected source-tile outline, in destination pixels
+ASP_MARGIN_MAX = 0.05
+ASP_MIXED = (1, 17, 2, 16, 4)  # thin strips between thick ones; the rest of the axis is the last chunk
+
+
+def asp_tiling(kind, shape):
+    """Tile-shape class -> argument for GeoboxTiles."""
+    ny, nx = shape
+    if kind in ("rows1", "rows2", "rows4"):
+        return (int(kind[4:]), nx)
+    if kind in ("cols1", "cols2", "cols4"):
+        return (ny, int(kind[4:]))
+    if kind == "rows2-quarter":
+        return (2, nx // 4)
+    if kind == "cols2-quarter":
+        return (ny // 4, 2)
+    if kind == "square":
+        return (16, 16)
+    if kind == "mixed-rows":
+        return (ASP_MIXED + (ny - sum(ASP_MIXED),), (nx,))
+    if kind == "mixed-cols":
+        return ((ny,), ASP_MIXED + (nx - sum(ASP_MIXED),))
+    raise ValueError(kind)
+
+
+def asp_rects(shape, tl):
+    yo, xo = offsets(shape[0], tl[0]), offsets(shape[1], tl[1])
+    return {(iy, ix): (xo[ix], yo[iy], xo[ix + 1], yo[iy + 1])
+            for iy in range(len(yo) - 1) for ix in range(len(xo) - 1)}
+
+
+def asp_project_rect(rc, A6, se, de, hlen):
+    """Outline of a pixel rectangle in the other CRS, every side cut into equal pieces no longer than hlen there.
+
+    Returns (points, sag): sag = the largest distance between the image of a piece's midpoint and the midpoint of
+    its chord, i.e. how far the true outline can be from the polygon through the points.
+    """
+    a, b, c, d, e, f = A6
+    tr = transformer(se, de)
+    x0, y0, x1, y1 = rc
+    out, sag = [], 0.0
+    for (xa, ya), (xb, yb) in (((x0, y0), (x1, y0)), ((x1, y0), (x1, y1)), ((x1, y1), (x0, y1)), ((x0, y1), (x0, y0))):
+        n = max(1, math.ceil(max(abs(xb - xa), abs(yb - ya))))
+        for _ in range(8):
+            t = np.arange(2 * n + 1) / (2 * n)
+            px, py = xa + (xb - xa) * t, ya + (yb - ya) * t
+            X, Y = tr.transform(a * px + b * py + c, d * px + e * py + f)
+            X, Y = np.asarray(X, dtype="float64"), np.asarray(Y, dtype="float64")
+            if not (np.isfinite(X).all() and np.isfinite(Y).all()):
+                raise RuntimeError(f"harness: projection {se}->{de} produced a non-finite point")
+            L = float(np.hypot(X[2::2] - X[:-2:2], Y[2::2] - Y[:-2:2]).max())
+            if L <= hlen:
+                break
+            n = math.ceil(n * L / hlen * 1.05)
+        else:
+            raise RuntimeError("harness: outline densification did not converge")
+        sag = max(sag, float(np.hypot(X[1::2] - (X[:-2:2] + X[2::2]) / 2, Y[1::2] - (Y[:-2:2] + Y[2::2]) / 2).max()))
+        out.extend(zip(X[:-1:2].tolist(), Y[:-1:2].tolist()))
+    return out, sag
+
+
+def gen_pair_aspect():
+    tier = _TIER[0]
+    cfgs = tuple(itertools.product(XASP, ASP_DIRECTIONS))
+    # a union of complete products
+    for (cid, dr), dk, sk in itertools.product(cfgs, ASP_DST_TILES, ASP_SRC_TILES):
+        yield (cid, dr, 0, dk, sk, "cover")
+    for (cid, dr), dk in itertools.product(cfgs, ASP_DST_TILES):
+        yield (cid, dr, 0, dk, "square", "NE")
+    if tier != "quick":
+        for (cid, dr), dk, sk in itertools.product(cfgs, ASP_DST_TILES, ASP_SRC_TILES_THOROUGH):
+            yield (cid, dr, 0, dk, sk, "cover")
+        for (cid, dr), dk, sk in itertools.product(cfgs, ASP_DST_TILES, ("rows4", "cols4")):
+            yield (cid, dr, 0, dk, sk, "NE")
+        for (cid, dr), dk, sk in itertools.product(cfgs, ASP_DST_TILES, ASP_SRC_TILES):
+            yield (cid, dr, 0, dk, sk, "SW")
+        for (cid, dr), dk, sk in itertools.product(cfgs, ASP_DST_TILES, ASP_SRC_TILES):
+            yield (cid, dr, 30, dk, sk, "cover")  # destination turned by 30 degrees about its centre
+
+
+def run_pair_aspect(case):
+    cid, dr, rot, dk, sk, place = case
+    de, Ad, dshape, se, As, sshape = XASP[cid]
+    if dr == "projected<-lonlat":
+        de, Ad, dshape, se, As, sshape = se, As, sshape, de, Ad, dshape
+    if rot:
+        cy, cx = dshape[0] / 2, dshape[1] / 2
+        Ad = aff_mul(Ad, aff_mul(aff_T(cx, cy), aff_mul(aff_R(rot), aff_T(-cx, -cy))))
+    fx, fy = ASP_PLACE[place]
+    if (fx, fy) != (0.0, 0.0):
+        As = aff_mul(As, aff_T(round(fx * sshape[1]) + 0.25, round(fy * sshape[0]) - 0.25))
+    dt, st = asp_tiling(dk, dshape), asp_tiling(sk, sshape)
+    dst = GeoboxTiles(GeoBox(dshape, Affine(*Ad), f"EPSG:{de}"), dt)
+    src = GeoboxTiles(GeoBox(sshape, Affine(*As), f"EPSG:{se}"), st)
+    drects = asp_rects(dshape, dt)
+    D = {i: Polygon([aff_apply(Ad, x, y) for x, y in rect_pts(*rc)]) for i, rc in drects.items()}
+    plen, pix = aff_pixlen(Ad), aff_pixarea(Ad)
+    # the true outline of a source tile is within `sag` of its polygon; the part of it inside a destination tile is
+    # not longer than that tile's perimeter (4 nearly straight sides, each crossing it once): the overlap area is
+    # known to 2 * sag * perimeter (lens areas are 2/3 * chord * height; 2 is head-room), on top of 1%.  Pieces are
+    # halved until that is below 5% of the half-pixel threshold.
+    perim = max(2 * ((rc[2] - rc[0]) + (rc[3] - rc[1])) for rc in drects.values())
+    srects = asp_rects(sshape, st)
+    for h in ASP_H:
+        S, sag = {}, 0.0
+        for j, rc in srects.items():
+            pts, sg = asp_project_rect(rc, As, se, de, h * plen)
+            S[j] = Polygon(pts)
+            sag = max(sag, sg)
+        margin = 0.01 + 2 * (sag / plen) * perim / 0.5
+        if margin <= ASP_MARGIN_MAX:
+            break
+    else:
+        raise RuntimeError(f"harness: source outlines not known well enough ({margin})")
+    what = (f"dst EPSG:{de} {dshape} affine {Ad} tiles {dt} [{dk}] / src EPSG:{se} {sshape} affine {As} tiles {st} "
+            f"[{sk}] ({cid}, source {place})")
+    r = R()
+    deps = dst.grid_intersect(src)
+    nreq, nedges = judge_pairs(r, deps, D, S, pix, margin, "overlap", "cross-crs-tile-aspect",
+                               f"{dr}:dst-{dk}:src-{sk}", what)
+    r.outcome = (f"aspect:{dr}:dst-{dk}:src-{'square' if sk == 'square' else 'strips'}:{place}:rot{rot}:"
+                 f"req={'0' if nreq == 0 else 'n'}:edges={'=' if nedges == nreq else '+'}")
+    r.counts = {"edges_required": nreq, "edges_listed": nedges}
+    return r
+
+
+# =================================================================================================
 def slices(tier):
     _TIER[0] = tier
     return [
@@ -2294,6 +2451,12 @@ def slices(tier):
         e1.Slice("query-odd-geometries", gen_odd, run_odd,
                  "repeated vertices, single-part Multi*/GeometryCollection, LinearRing from .exterior / .interiors x "
                  "2 rasters x 2 layouts x 2 CRS x {box, triangle} x 6x6 placements; dimension-aware oracle"),
+        e1.Slice("pairs-cross-crs-tile-aspect", gen_pair_aspect, run_pair_aspect,
+                 "lon/lat <-> {LAEA Europe, Albers Australia, UTM 55S}, 1000-4500 km, both directions x destination "
+                 "tiles {1, 2, 4 full-width rows, 1, 2, 4 full-height columns, 2-row / 2-column quarter strips, thin "
+                 "strips between thick ones (variable chunks), squares} x source tiles {squares, 4-row, 4-column strips; "
+                 "thorough: 1, 2 rows / columns, mixed} x source placement {covering; moved half its size NE; thorough: "
+                 "SW, destination turned 30 deg}; all tile pairs, outlines projected by the harness in 1/4-pixel pieces"),
         e1.Slice("pairs-same-crs-drift", gen_drift, run_drift,
                  "2048x40000 / 40000x2048 px rasters (4x20 tiles) x src layout x {rotation, shear-x, shear-y} x terms "
                  "+-{1e-6..5e-3} x pivot {centre, corner}; all tile pairs, exact footprints"),
@@ -2319,6 +2482,11 @@ def main(ctx):
         "layout_menu": {"shape": list(MENU_SHAPE), "rows": [repr(m) for m in MENU_Y], "cols": [repr(m) for m in MENU_X],
                         "relations": {k: list(v) for k, v in MENU_REL.items()}},
         "history_layouts": [repr((MENU_Y[a], MENU_X[b])) for a, b in HIST_LAYOUTS],
+        "tile_aspect": {"rasters": {k: [v[0], list(v[1]), list(v[2]), v[3], list(v[4]), list(v[5])] for k, v in XASP.items()},
+                        "dst_tiles": list(ASP_DST_TILES), "src_tiles": list(ASP_SRC_TILES),
+                        "src_tiles_thorough": list(ASP_SRC_TILES_THOROUGH), "mixed_chunks": list(ASP_MIXED),
+                        "placements": {k: list(v) for k, v in ASP_PLACE.items()}, "outline_piece_px": list(ASP_H),
+                        "largest_threshold_margin": ASP_MARGIN_MAX},
         "drift_terms": list(DRIFT_TERMS), "drift_kinds": list(DRIFT_KINDS),
         "drift_layouts": {k: list(v[1]) for k, v in DRIFT_ORIENT.items()},
     }
@@ -2333,6 +2501,9 @@ def main(ctx):
         "dependency edges: required when overlap > half a destination pixel (1% head-room across CRSs for the "
         "32-point densification); 'no edge' is demanded when the footprints are disjoint (gap > 1e-6 pixel same "
         "CRS, > 1/4 destination pixel across CRSs); extra edges are allowed otherwise",
+        "tile-aspect slice: the half-pixel threshold is raised by 1% plus the measured uncertainty of the projected "
+        "source outlines (2 x largest chord-to-curve distance x destination tile perimeter; pieces of 1/4 pixel "
+        "halved until that is at most 5%)",
         "tiled GCP rasters are not enumerated (the property's quantifier lists affine rasters)",
         "nearly aligned grids (drift / snap slices): an overlap thinner than the library's documented snapping "
         "tolerances can move an edge (translation 1e-3 px, scale 1e-6, rotation 1e-8, times the raster length) is a "
